@@ -426,14 +426,33 @@ def _trunc_exceptions(F):
     return set()
 
 
+def _decode_loop_index(F):
+    """the loop form of varint_decode32 (rules/varint.py::_decode_loop_idiom) computes `7 * (i as u32)` where i is
+    the enumerate() index over data[..len]; len is what the scanner returned for a window of at most 5 bytes and
+    the scanner returns a position + 1 inside its argument or 0 (C14-R2 scanner-shape): i < 5.  Returns the
+    identity of that index expression, or None when this is not established on the current tree"""
+    from . import varint
+    dec, notes = varint.decode_table(F)
+    if dec is None or not dec.get("_loop_index") or dec.get("window") is None or dec["window"] > 5:
+        return None
+    scan = varint.length_scanner(F)
+    if scan.get("returns") != ["counter+1", "zero"] or not scan.get("counter_incremented_by_one_in_loop"):
+        return None
+    return dec["_loop_index"]
+
+
 def r7_trunc(ck, F):
     R = "C17-R7"
     hits = []
     exc = _trunc_exceptions(F)
+    loop_index = _decode_loop_index(F)
     for b in F.user_bodies():
         for s, op, x in trunc_arith(b):
             if b.path in exc:
                 ck.ob(R, f"bounded-by-caller/{b.path}", True, f"`{x.show()[:60]}` + 1: the counter is < data.len() and the only caller passes a window of at most 5 bytes (re-checked on this tree)", b, s)
+                continue
+            if b.path == A("varint_decode") and loop_index and x.a[0].ident() == loop_index and op == "Mul":
+                ck.ob(R, f"bounded-by-loop/{b.path}", True, f"7 * `{x.show()[-40:]}`: the enumerate() index runs over data[..len] with len <= 5 (scanner over a window of at most 5 bytes; re-checked on this tree)", b, s)
                 continue
             hits.append((b, s, op, x))
             ck.ob(R, f"arith-on-truncated/{b.path}", False, f"`{x.show()}` is narrowed ({x.x['frm']} -> {x.x['to']}) and then used in {op}: the cast admits values the arithmetic cannot represent (src: {b.src_at(s)[:60]})", b, s)
